@@ -305,7 +305,14 @@ def eval_formulas(base_sheets, formulas, sheet='S', first_col=27, ncols=8, overr
                         c, r = split_a1(addr)
                         tr.get(home, get_column_letter(c), str(r), ex)
             if overrides:
-                o_set = outcome(lambda: ex.set_cells([Cell(t, c, r, dec(v)) for t, c, r, v in overrides]))
+                def set_all():
+                    # every third case hands the cells over in two consecutive calls: what was set first stays set
+                    cells_ = [Cell(t, c, r, dec(v)) for t, c, r, v in overrides]
+                    if len(cells_) >= 2 and (len(formulas) + len(overrides)) % 3 == 0:
+                        ex.set_cells(cells_[:len(cells_) // 2])
+                        return ex.set_cells(cells_[len(cells_) // 2:])
+                    return ex.set_cells(cells_)
+                o_set = outcome(set_all)
                 if o_set[0] != 'value':
                     # the overrides were refused: that is the outcome of every formula that was to be evaluated under them
                     return [o_set if o_set[0] == 'timeout' else (o_set[0], o_set[1], 'set_cells: ' + str(o_set[2]))] * len(addrs)
